@@ -36,7 +36,7 @@ pub fn check_range(c: &RangeCase) -> CheckResult {
     for (cell, w) in &complete {
         match got_cells.get(cell) {
             None => return Err(Fail::new(format!("rank-pair-missing:{:?}", cell.kind), format!("all {} combos of {} are present with weight {} but the rank pair is not reported", cell.combos().len(), cell.name(), w))),
-            Some(g) if g.to_bits() != w.to_bits() => return Err(Fail::new("rank-pair-weight", format!("rank pair {} reported with weight {}, its combos carry {}", cell.name(), g, w))),
+            Some(g) if g != w => return Err(Fail::new("rank-pair-weight", format!("rank pair {} reported with weight {}, its combos carry {}", cell.name(), g, w))),
             _ => {}
         }
     }
@@ -52,7 +52,7 @@ pub fn check_range(c: &RangeCase) -> CheckResult {
     }
     // view 2: leftovers
     let got_left: RangeMap = r.orphan_card_pairs().iter().map(|(k, v)| (pair_ids(k), *v)).collect();
-    if let Some(d) = diff_maps(&left, &got_left) {
+    if let Some(d) = diff_maps_eq(&left, &got_left) {
         return Err(Fail::new("leftovers", format!("leftover view differs from the combos not covered by a complete rank pair: {} ({} leftovers expected, {} reported)", d, left.len(), got_left.len())));
     }
     // together: every combo exactly once
@@ -90,9 +90,29 @@ pub fn check_range(c: &RangeCase) -> CheckResult {
     if !left.is_empty() {
         cls |= 8;
     }
-    Ok(Outcome::new(almost || !complete.is_empty(), fp_of(&format!("{:?}", c.combos)), cls))
+    if m.values().any(|w| w.to_bits() == (-0.0f32).to_bits()) && m.values().any(|w| w.to_bits() == 0) {
+        cls |= 16;
+    }
+    Ok(Outcome::new(almost || !complete.is_empty(), fp_of(&format!("{:?}", c.combos.iter().map(|c| (c.0, c.1, c.2.to_bits())).collect::<Vec<_>>())), cls))
 }
-pub const CLASSES: &[&str] = &["all_present_one_weight_differs", "exactly_one_combo_missing", "has_complete_rank_pair", "has_leftovers"];
+pub const CLASSES: &[&str] = &["all_present_one_weight_differs", "exactly_one_combo_missing", "has_complete_rank_pair", "has_leftovers", "signed_zero_weights"];
+
+/// like diff_maps, but weights are compared with f32 equality (+0.0 == -0.0: "the same weight")
+fn diff_maps_eq(want: &RangeMap, got: &RangeMap) -> Option<String> {
+    for (k, w) in want {
+        match got.get(k) {
+            None => return Some(format!("combo {} (weight {}) is missing", pname(*k), w)),
+            Some(g) if g != w => return Some(format!("combo {} has weight {}, expected {}", pname(*k), g, w)),
+            _ => {}
+        }
+    }
+    for (k, g) in got {
+        if !want.contains_key(k) {
+            return Some(format!("combo {} (weight {:?}) should not be there (it is covered by a reported rank pair)", pname(*k), g));
+        }
+    }
+    None
+}
 
 /// target-cell pattern: base-3 digits of `code` over the cell's combos (0 absent, 1 weight a,
 /// 2 weight b), embedded in a background
@@ -151,8 +171,8 @@ fn background(seed: u64) -> Vec<(u8, u8, f32)> {
 }
 
 pub fn run(ctx: &mut Ctx) {
-    ctx.rule = "(1) exhaustive inside one rank pair: every absent/weight-a/weight-b pattern of its combos - all 3^6 x 13 pockets, all 3^4 x 78 suited, all 3^12 = 531,441 x (quick 6, thorough all 78) offsuit rank pairs - embedded in a seeded background of neighbouring complete rank pairs and stray combos; (2) proptest offsuit patterns biased to 'all but one present' and 'one weight differs' over all 78 offsuit pairs; (3) C06's row-pattern ranges with partial cells and arbitrary weights. Oracle: rank_pairs() == the model's complete cells (both directions, weight bit-equal, high card first), orphan_card_pairs() == model leftovers, every combo covered exactly once by the two views. Non-trivial = some rank pair complete or almost complete (all present with one differing weight, or exactly one combo missing); distinct by range contents.".into();
-    ctx.assumptions = vec!["weights finite, >= 0, not NaN (NaN != NaN would make 'same weight' meaningless)".into()];
+    ctx.rule = "(1) exhaustive inside one rank pair: every absent/weight-a/weight-b pattern of its combos - all 3^6 x 13 pockets, all 3^4 x 78 suited, all 3^12 = 531,441 x (quick 6, thorough all 78) offsuit rank pairs - embedded in a seeded background of neighbouring complete rank pairs and stray combos; the pocket/suited patterns again with the two weights +0.0 / -0.0; (2) proptest offsuit patterns biased to 'all but one present' and 'one weight differs' over all 78 offsuit pairs; (3) C06's row-pattern ranges with partial cells and arbitrary weights. Oracle: rank_pairs() == the model's complete cells (both directions, weight bit-equal, high card first), orphan_card_pairs() == model leftovers, every combo covered exactly once by the two views. Non-trivial = some rank pair complete or almost complete (all present with one differing weight, or exactly one combo missing); distinct by range contents.".into();
+    ctx.assumptions = vec!["weights finite, >= 0, not NaN (NaN != NaN would make 'same weight' meaningless); -0.0 is a legal weight here and is the same weight as +0.0 (f32 equality), so reported weights are compared with ==".into()];
     let cells = all_cells();
     // pockets and suited: all patterns
     let small: Vec<(Cell, u32)> = cells.iter().filter(|c| c.kind != Kind::Offsuit).flat_map(|c| (0..3u32.pow(c.combos().len() as u32)).map(move |code| (*c, code))).collect();
@@ -167,6 +187,18 @@ pub fn run(ctx: &mut Ctx) {
         },
         check_pattern,
         |c| json!({"cell": c.cell.name(), "code_base3": c.code, "background": c.background.len()}),
+    );
+    // the same patterns with the two weights +0.0 and -0.0 ("the same weight" under ==, different bits)
+    ctx.run_enum_brief(
+        StreamCfg::new("signed_zero_patterns", CLASSES, n),
+        n,
+        true,
+        |i| {
+            let (cell, code) = small[i as usize];
+            PatternCase { cell, code, wa: 0.0, wb: -0.0, background: if i % 3 == 0 { background(i / 5) } else { vec![] } }
+        },
+        check_pattern,
+        |c| json!({"cell": c.cell.name(), "code_base3": c.code, "weights": "+0.0 / -0.0"}),
     );
     let off: Vec<Cell> = cells.iter().copied().filter(|c| c.kind == Kind::Offsuit).collect();
     let chosen: Vec<Cell> = if ctx.tier == Tier::Quick {
@@ -205,6 +237,12 @@ pub fn run(ctx: &mut Ctx) {
                     _ => {}
                 }
                 let code = digits.iter().rev().fold(0u32, |a, d| a * 3 + d);
+                // one case in eight uses the signed zeros as the two weights
+                let (wa, wb) = match seed % 8 {
+                    0 => (0.0f32, -0.0f32),
+                    1 => (-0.0f32, 0.0f32),
+                    _ => (wa, wb),
+                };
                 PatternCase { cell: offc[ci], code, wa, wb, background: background(seed) }
             })
         },
